@@ -53,6 +53,7 @@ class SimSpec(common.Spec):
         log = []
         order = {}
         burst_evals = [0]
+        replaced = []
 
         def idx(blk):
             return order.get(blk.name, -1)
@@ -148,8 +149,15 @@ class SimSpec(common.Spec):
                         pos = len(log)
                         log.append(None)
                         _last[0] = None
+                        before = _blk.output
                         try:
-                            return _orig()
+                            changed = _orig()
+                            # an evaluation that reports "unchanged" (the new value compares equal, e.g.
+                            # True for 1) must leave the old output in place: the blocks reading it are
+                            # not re-evaluated, they would be stale for a function that tells the two apart
+                            if changed is False and _blk.output is not before:
+                                replaced.append([_blk.name, repr(before), repr(_blk.output)])
+                            return changed
                         finally:
                             log[pos] = ['E', idx(_blk), enc(_last[0])]
                     blk.calc_output, blk.eval_block = calc, evalb
@@ -214,7 +222,7 @@ class SimSpec(common.Spec):
             end = common.exc_enum(res.run_exc)
             if end == 'EInstability':
                 steps.append(['U'])
-        return dict(steps=steps, names=res.names, kinds=res.kinds, end=end)
+        return dict(steps=steps, names=res.names, kinds=res.kinds, end=end, replaced=replaced)
 
     # ---------------------------------------------------------------- Coq side
     def model_circuit(self, case, names):
@@ -528,6 +536,15 @@ def check(run):
     run.assumptions.append("tools/gen_cblocks.py (fail-closed Python-ast translator of the bundled combinational "
                            "blocks, ~280 lines) is trusted to render the accepted shapes faithfully")
     res = common.standard_flow(run, spec, cases)
+    bad = [(c, o) for c, o, ch in res if o.get('replaced')]
+    run.add_obligation(not bad)
+    if bad:
+        c, o = min(bad, key=lambda x: len(repr(x[0])))
+        run.violation('monitor', dict(case=c, observed=dict(replaced=o['replaced'][:5])),
+                      "an evaluation reported 'output unchanged' but replaced the output by an equal value of "
+                      f"another type/identity (block, before, after): {o['replaced'][:5]}; the blocks reading it "
+                      f"were not re-evaluated. Circuit: {c['blocks']}", clause='unchanged_output_replaced',
+                      concrete=True)
     for c, o, ch in res:
         for s in o.get('steps', []):
             run.count('step_' + s[0])
@@ -542,4 +559,13 @@ def check(run):
 
 
 def replay(run, path):
+    payload, case = common.load_replay_case(path)
+    if payload.get('clause') == 'unchanged_output_replaced':
+        def again():
+            o = SimSpec().run_impl([case])[0]
+            if o.get('replaced'):
+                run.violation('monitor', dict(case=case, observed=dict(replaced=o['replaced'][:5])),
+                              f"an evaluation reported 'output unchanged' but replaced the output: {o['replaced'][:5]}",
+                              clause='unchanged_output_replaced', concrete=True)
+        return common.directed_replay(run, path, again)
     return common.std_replay(run, SimSpec(), path)
